@@ -4,4 +4,5 @@ pub mod catalogue;
 pub mod gen_circuit;
 pub mod logged_hash;
 pub mod ref_eval;
+pub mod relations;
 pub mod totality;
